@@ -585,7 +585,7 @@ def run(ctx: Ctx) -> None:
     ctx.note("asbuilt_drift", stats.get("ok-drift", 0))
 
     # ---- 4. code -> spec: random executions validated by TLC -------------------------------------
-    ntr = ctx.pick(120, 1500)
+    ntr = ctx.pick(120, 1000)
     traces = [gen_random_trace(ctx.rng, backend, f"r{n}", ctx.rng.randint(6, 16)) for n in range(ntr)]
     # the minimal histories of the two deviations (TLC's counterexamples of the control runs), executed on
     # the real backend and judged by TLC like every other trace
@@ -638,7 +638,7 @@ def run(ctx: Ctx) -> None:
     ctx.rng.shuffle(dev_h)
     ctx.rng.shuffle(plain_h)
     three = [w for w in wbehs if len(w["kinds"]) == 3][: ctx.pick(10, 0)]
-    chosen = dev_h[: ctx.pick(6, 100)] + plain_h[: ctx.pick(8, 200)] + [w for w in three if w not in dev_h[:6]]
+    chosen = dev_h[: ctx.pick(6, 80)] + plain_h[: ctx.pick(8, 140)] + [w for w in three if w not in dev_h[:6]]
     sched = new_scheduler()
     wstats: dict = {}
     for n, wb in enumerate(chosen):
